@@ -42,7 +42,7 @@ package disk
 //@ pred casPresent(c, d) = has(c.lru.cache, casKey(d)) && !mismatch(dSize(d), entSize(payload(c.lru.cache[casKey(d)].Value)))
 
 //@ func (c *diskCache) findMissingLocalCAS(blobs []*pb.Digest) int
-//@   serves C05 C06 C07 C10
+//@   serves C05 C06 C07 C10 C14
 //@   requires wfCache(c) && !muHeld && c.accessLogger != nil
 //@   requires[C14] nonnil: forall k Int :: (lo(blobs) <= k && k < hi(blobs)) ==> elems(blobs)[k] != 0
 //@   modifies lruState(c.lru), elems(blobs), hitN, hitSize
@@ -67,7 +67,7 @@ package disk
 // over containsQueue are produced by another goroutine and channel contents are not modelled.
 
 //@ func (c *diskCache) FindMissingCasBlobs(ctx context.Context, blobs []*pb.Digest) ([]*pb.Digest, error)
-//@   serves C10
+//@   serves C07 C10 C14
 //@   requires wfCache(c) && !muHeld && c.accessLogger != nil && ctx != nil
 //@   requires[C14] nonnil: forall k Int :: (lo(blobs) <= k && k < hi(blobs)) ==> elems(blobs)[k] != 0
 //@   modifies lruState(c.lru), elems(blobs), hitN, hitSize, visited, sendN, sentRefs
@@ -78,7 +78,7 @@ package disk
 //@   call filterNonNil#* asserts[C10] same: arg0 == blobs
 
 //@ func (c *diskCache) findMissingCasBlobsInternal(ctx context.Context, blobs []*pb.Digest, failFast bool) error
-//@   serves C06 C10 C18
+//@   serves C06 C07 C10 C14 C18
 //@   requires wfCache(c) && !muHeld && c.accessLogger != nil && ctx != nil
 //@   requires[C14] nonnil: forall k Int :: (lo(blobs) <= k && k < hi(blobs)) ==> elems(blobs)[k] != 0
 //@   modifies lruState(c.lru), elems(blobs), hitN, hitSize, visited, sendN, sentRefs
